@@ -15,6 +15,7 @@ Proof.
 Qed.
 
 Section Wf.
+  Variable O : oracles.
   Variable ps : elem -> option bool.
   Variables mn mx : option nat.
 
@@ -25,11 +26,11 @@ Section Wf.
   Proof. intros rel n1 r1 n2 r2 H. apply app_inv_head in H. injection H as -> ->. split; reflexivity. Qed.
 
   Definition walk_ok (t : tree) : Prop :=
-    wf_tree t -> forall rel abs d L, walk ps mn mx t rel abs d = Some L ->
+    wf_tree t -> forall rel abs d L, walk O ps mn mx t rel abs d = Some L ->
     NoDup (map e_rel L) /\ forall e, In e L -> starts rel (names (children t)) e.
 
   Lemma walk_list_ok : forall es, Forall (fun p => walk_ok (snd p)) es -> NoDup (names es) -> wf_dirc es ->
-    forall rel abs d L, walk_list ps mn mx es rel abs d = Some L ->
+    forall rel abs d L, walk_list O ps mn mx es rel abs d = Some L ->
     NoDup (map e_rel L) /\ forall e, In e L -> starts rel (names es) e.
   Proof.
     induction es as [|[n c] es IH]; intros F ND WF rel abs d L H.
@@ -38,12 +39,12 @@ Section Wf.
       inversion WF as [|? ? Wc Wes]; subst. cbn [snd] in *.
       cbn [walk_list fst snd] in H. cbv zeta in H.
       set (e0 := Elem (rel ++ [n]) (abs ++ [n]) c) in *.
-      destruct (if negb (at_max mx d) && is_dir c then _ else _) as [b|] eqn:Eb; [|discriminate].
-      destruct (walk_list ps mn mx es rel abs d) as [r|] eqn:Er; [|discriminate]. injection H as <-.
+      destruct (match (if at_max mx d then Some false else dir_test_spec O c (abs ++ [n])) with Some true => _ | Some false => _ | None => _ end) as [b|] eqn:Eb; [|discriminate].
+      destruct (walk_list O ps mn mx es rel abs d) as [r|] eqn:Er; [|discriminate]. injection H as <-.
       destruct (IH Fes NDes Wes rel abs d r Er) as [NDr Sr].
       (* what is below [c] *)
       assert (NoDup (map e_rel b) /\ forall e, In e b -> exists m rest, e_rel e = rel ++ n :: m :: rest) as [NDb Sb].
-      { destruct (negb (at_max mx d) && is_dir c); [|injection Eb as <-; split; [constructor | intros e []]].
+      { destruct (if at_max mx d then Some false else dir_test_spec O c (abs ++ [n])) as [[|]|]; [|injection Eb as <-; split; [constructor | intros e []] | discriminate].
         destruct (ps e0) as [[|]|]; [injection Eb as <-; split; [constructor | intros e []] | | discriminate].
         destruct (Hc Wc _ _ _ _ Eb) as [N S]. split; [exact N|]. intros e He. destruct (S e He) as (m & rest & E & _).
         exists m, rest. rewrite E, <- app_assoc. reflexivity. }
@@ -82,10 +83,10 @@ Section Wf.
 End Wf.
 
 (** The files of any model on a well-formed directory have distinct relative paths. *)
-Theorem spec_files_distinct : forall (M : smodel) L,
-  wf_tree (sm_dir M) -> spec_files M = Some L -> distinct_rels L = true.
+Theorem spec_files_distinct : forall (O : oracles) (M : smodel) L,
+  wf_tree (sm_dir M) -> spec_files O M = Some L -> distinct_rels L = true.
 Proof.
-  intros [d a c s p] L W H. unfold spec_files in H. cbn [sm_cfg sm_dir sm_abs sm_prune sm_sel] in *.
+  intros O [d a c s p] L W H. unfold spec_files in H. cbn [sm_cfg sm_dir sm_abs sm_prune sm_sel] in *.
   assert (forall G, strict_filter s G = Some L -> NoDup (map e_rel G) -> NoDup (map e_rel L)) as Filt.
   { clear. intros G. revert L. induction G as [|e G IH]; intros L H N; cbn [strict_filter] in H.
     - injection H as <-. constructor.
@@ -109,6 +110,6 @@ Proof.
     clear -ND. induction (children d) as [|[n t] es IH]; cbn in *; [constructor|]. inversion ND as [|? ? Hn N]; subst.
     constructor; [|apply IH; exact N]. intros Hin. apply Hn. apply in_map_iff in Hin as [[n' t'] [E Hin]]. cbn in E. injection E as ->.
     apply in_map_iff. exists (n, t'). split; [reflexivity | exact Hin].
-  - destruct (walk p mn mx d [] a 0) as [G|] eqn:EW; [|discriminate].
-    eapply Filt; [exact H|]. destruct (walk_all_ok p mn mx d W [] a 0 G EW) as [N _]. exact N.
+  - destruct (walk O p mn mx d [] a 0) as [G|] eqn:EW; [|discriminate].
+    eapply Filt; [exact H|]. destruct (walk_all_ok O p mn mx d W [] a 0 G EW) as [N _]. exact N.
 Qed.
